@@ -157,10 +157,10 @@ TReset ==
     /\ sess' = [x \in {} |-> 0]
 
 \* adversary edits of the byte stream in flight: the receiver's view of the handshake may now differ
-AltersStream == {"drop", "swap", "dropall", "trunc"}
+AltersStream == {"drop", "swap", "dropall", "trunc", "delay"}
 TAdv ==
     /\ IsEvent({"drop", "dup", "swap", "mod", "trunc", "inject", "injectrec", "forge", "replay",
-                "reflect", "hsedit", "dropall"})
+                "reflect", "hsedit", "dropall", "delay"})
     /\ LET t == Line
            \* only handshake messages are transcript
            alters == (t.ev \in AltersStream /\ t.itype = 22) \/ (t.ev = "hsedit" /\ t.op \in {"del", "swap"})
@@ -179,7 +179,7 @@ TFlush ==
     /\ UNCHANGED sess
 
 TSkip ==
-    /\ IsEvent({"keys", "clock", "mark", "skip", "tamper", "sid", "sidedit", "tickkey"})
+    /\ IsEvent({"keys", "clock", "mark", "skip", "tamper", "sid", "sidedit", "tickkey", "pmtu"})
     /\ UNCHANGED sess
 
 TraceInit == l = 1 /\ sess = [x \in {} |-> 0]
